@@ -1,5 +1,5 @@
 (* C02 - CTAP2 response encoding carries every member under its specified key, exactly. *)
-From Ctap Require Import Base Schema Wire Typed Procs Inst Tables ProcTables Finite Canonical WireP SerP FramingP ObResponseSide ObRespTables FnShapes Shapes ObShapeResponse.
+From Ctap Require Import Base Schema Wire Typed Procs Inst Tables ProcTables Finite Canonical WireP SerP FramingP ObResponseSide ObRespTables FnShapes Shapes ObShapeResponse AgreeP ObResponseAgree.
 Local Open Scope string_scope.
 Local Open Scope Z_scope.
 
@@ -92,6 +92,26 @@ Proof. exact generated_response_side. Qed.
 Theorem c02_generated_tables : forallb (fun f => resp_tables_equiv (gen_tables f)) all_feats = true.
 Proof. exact generated_resp_tables. Qed.
 
+(* THE RESPONSE MODEL AT THE REGENERATED SOURCE IS THE RESPONSE MODEL AT THE SPECIFICATION TABLES: for every
+   Response variant, payload, capacity and prior buffer contents, in every feature configuration (the encoder
+   consults an environment only through the declarations reachable from the payload type; on the response
+   closure the regenerated declarations, arm kinds, payload types and the overflow status are the
+   specification's - kernel-evaluated on every run) *)
+Theorem c02_generated_agreement :
+  forallb (fun f => response_bundle spec_tables (gen_tables f) (spec_env f) (gen_env f) (response_names f)) all_feats = true.
+Proof. exact generated_response_agreement. Qed.
+
+Theorem c02_generated_model_is_spec_model : forall f variant tys payload n prior, In f all_feats ->
+  assoc variant (t_resp_variants spec_tables) = Some tys ->
+  response_serialize (gen_tables f) (gen_env f) variant payload n prior
+  = response_serialize spec_tables (spec_env f) variant payload n prior.
+Proof.
+  intros f variant tys payload n prior Hf Hv. symmetry.
+  exact (response_models_agree spec_tables (gen_tables f) (spec_env f) (gen_env f) (response_names f)
+           (forallb_In (fun f => response_bundle spec_tables (gen_tables f) (spec_env f) (gen_env f) (response_names f))
+                       all_feats f generated_response_agreement Hf) variant tys Hv payload n prior).
+Qed.
+
 (* tie to the source for the hand-modelled procedural code: the bodies of these functions, as regenerated from
    /repo now, have the shape (literals, operators, calls, control flow, constants) the model was written against *)
 Theorem c02_modelled_functions_unchanged_response : shapes_hold fn_shapes shapes_response = true.
@@ -108,3 +128,5 @@ Eval vm_compute in "ASSUMPTIONS c02_each_member_once". Print Assumptions c02_eac
 Eval vm_compute in "ASSUMPTIONS c02_generated_conforms". Print Assumptions c02_generated_conforms.
 Eval vm_compute in "ASSUMPTIONS c02_generated_tables". Print Assumptions c02_generated_tables.
 Eval vm_compute in "ASSUMPTIONS c02_modelled_functions_unchanged_response". Print Assumptions c02_modelled_functions_unchanged_response.
+Eval vm_compute in "ASSUMPTIONS c02_generated_agreement". Print Assumptions c02_generated_agreement.
+Eval vm_compute in "ASSUMPTIONS c02_generated_model_is_spec_model". Print Assumptions c02_generated_model_is_spec_model.
